@@ -26,7 +26,7 @@ def twinN(cid, props, edits):
 D = 'pyPRISM/core/Density.py'
 mutant('C15-site-offdiag', 'C15', 'R15.f', D, 'self.site[t1,t2] = [rho1 + rho2]', 'self.site[t1,t2] = [rho1]')
 mutant('C15-pair-sum', 'C15', 'R15.f', D, 'self.pair[t1,t2] = [rho1*rho2]', 'self.pair[t1,t2] = [rho1+rho2]')
-mutant('C15-total-hoist', 'C15', 'R15.t', D,
+mutant('C15-total-hoist', 'C15', 'R15.f', D,
        "        for t1 in self.density.listify(types1):\n            rho1 = value\n            self.density[t1] = rho1\n\n            self.total = 0.",
        "        self.total = 0.\n        for t1 in self.density.listify(types1):\n            rho1 = value\n            self.density[t1] = rho1\n")
 mutant('C15-total-noreset', 'C15', 'R15.f', D, '            self.total = 0.\n', '')
@@ -336,3 +336,50 @@ mutant('C16-retain-caller', 'C16', None, PR, "        self.sys = deepcopy(sys)",
 mutant('C14-iterpairs-diag-flag', 'C14', None, PT, "test = lambda i,j: i<j", "test = lambda i,j: i<=j")
 mutant('C14-getitem-swapped', 'C14', None, PT, "        return self.values[t1][t2]", "        return self.values[t2][t2]")
 mutant('C15-pair-old-value', ['C15', 'C04'], None, D, "            self.density[t1] = rho1\n", "")
+
+# ---- round d: divergent core (0*inf), dtype casts, copies keep their space flag, two-instance independence ------------
+MSAF = 'pyPRISM/closure/MeanSphericalApproximation.py'
+HNCF = 'pyPRISM/closure/HyperNettedChain.py'
+mutantN('C03-msa-blend-zero-times-inf', ['C03', 'C09'], 'R03.i', [
+    (MSAF, "            self.value = -1 - gamma\n", "            outside = np.asarray(r>self.sigma,dtype=float)\n"),
+    (MSAF, "            mask = r>self.sigma\n            self.value[mask] = -self.potential[mask]\n",
+     "            self.value = (outside - 1.0)*(1.0 + gamma) - outside*self.potential\n")])
+# exp(gamma-u) is 0 where u is +inf, so the weighted form of HNC is exact there too; np.where selects, never multiplies
+twinN('C03-twin-hnc-blend', ['C03', 'C09'], [
+    (HNCF, "            self.value = -1 - gamma\n", "            outside = (r>self.sigma).astype(float)\n"),
+    (HNCF, "            mask = r>self.sigma\n            self.value[mask] = np.exp(gamma[mask] - self.potential[mask]) - 1.0 - gamma[mask]\n",
+     "            self.value = outside*(np.exp(gamma - self.potential) - 1.0 - gamma) + (1.0 - outside)*(-1 - gamma)\n")])
+twinN('C03-twin-msa-where', ['C03', 'C09'], [
+    (MSAF, "            self.value = -1 - gamma\n", "            pass\n"),
+    (MSAF, "            mask = r>self.sigma\n            self.value[mask] = -self.potential[mask]\n",
+     "            self.value = np.where(r>self.sigma, -self.potential, -1 - gamma)\n")])
+mutant('C09-hnc-exp-clamp', ['C09', 'C01'], 'R09.d', HNCF, "            self.value = np.exp(gamma - self.potential) - 1.0 - gamma",
+       "            self.value = np.exp(np.minimum(gamma - self.potential,100.0)) - 1.0 - gamma")
+DOMF = 'pyPRISM/core/Domain.py'
+mutant('C07-astype-input-dtype', ['C07', 'C08'], None, DOMF, "        return dst(self.DST_II_coeffs*array,type=2)/self.k",
+       "        array = np.asarray(array)\n        return (dst(self.DST_II_coeffs*array,type=2)/self.k).astype(array.dtype,copy=False)")
+mutant('C07-astype-int', ['C07', 'C08'], None, DOMF, "        return dst(self.DST_II_coeffs*array,type=2)/self.k",
+       "        return (dst(self.DST_II_coeffs*array,type=2)/self.k).astype(int)")
+twin('C07-twin-astype-float', ['C07', 'C08', 'C01', 'C06'], DOMF, "        return dst(self.DST_II_coeffs*array,type=2)/self.k",
+     "        return (dst(self.DST_II_coeffs*np.asarray(array,dtype=float),type=2)/self.k).astype(np.float64)")
+MAF = 'pyPRISM/core/MatrixArray.py'
+mutant('C13-copy-drops-space', ['C13', 'C07'], 'R13.3', MAF,
+       "return MatrixArray(length=self.length,rank=self.rank,data=np.copy(self.data),space=self.space,types=self.types)",
+       "return MatrixArray(length=self.length,rank=self.rank,data=np.copy(self.data),types=list(self.types))")
+twin('C13-twin-copy-types-list', ['C13', 'C07', 'C01'], MAF,
+     "return MatrixArray(length=self.length,rank=self.rank,data=np.copy(self.data),space=self.space,types=self.types)",
+     "return MatrixArray(self.length,self.rank,data=self.data.copy(),types=list(self.types),space=self.space)")
+KOYF = 'pyPRISM/omega/DiscreteKoyama.py'
+mutantN('C11-koyama-class-cache-incomplete-key', 'C11', 'R11.i', [
+    (KOYF, "    def __init__(self,sigma,l,length,lp):", "    _moments = {}\n\n    def __init__(self,sigma,l,length,lp):"),
+    (KOYF, "        l = self.l\n        q = -self.cos1\n", "        key = (n,self.l,self.lp)\n        if key in self._moments:\n            return self._moments[key]\n        l = self.l\n        q = -self.cos1\n"),
+    (KOYF, "        r4 = r2*r2 + l*l*l*l*D\n\n        return r2,r4", "        r4 = r2*r2 + l*l*l*l*D\n\n        self._moments[key] = (r2,r4)\n        return r2,r4")])
+twinN('C11-twin-koyama-class-cache-full-key', 'C11', [
+    (KOYF, "    def __init__(self,sigma,l,length,lp):", "    _moments = {}\n\n    def __init__(self,sigma,l,length,lp):"),
+    (KOYF, "        l = self.l\n        q = -self.cos1\n", "        key = (n,self.l,self.lp,self.sigma)\n        if key in self._moments:\n            return self._moments[key]\n        l = self.l\n        q = -self.cos1\n"),
+    (KOYF, "        r4 = r2*r2 + l*l*l*l*D\n\n        return r2,r4", "        r4 = r2*r2 + l*l*l*l*D\n\n        self._moments[key] = (r2,r4)\n        return r2,r4")])
+NFJF = 'pyPRISM/omega/NonOverlappingFreelyJointedChain.py'
+mutant('C11-nfjc-window-follows-kmax', 'C11', 'R11.e', NFJF, "        x = np.arange(dx,100,dx)",
+       "        x = np.linspace(dx,max(100,2*np.max(k)),999,endpoint=False)")
+SPF = 'pyPRISM/calculate/spinodal_condition.py'
+twin('C05-twin-spinodal-filter-else', ['C04', 'C05', 'C06'], SPF, "            if i<j:\n", "            if not i<j:\n                pass\n            else:\n")
